@@ -9,6 +9,9 @@
 #include <stdlib.h>
 #include <string.h>
 
+int vh_printf(const char* fmt, ...);   /* h_pipe.c: prefixes every line with the acting thread */
+#define printf vh_printf
+
 struct mock_cam_cfg mock_cam[MOCK_NCAM];
 struct mock_sto_cfg mock_sto[MOCK_NSTO];
 
